@@ -198,6 +198,29 @@ Proof. exact generated_payload_to_item. Qed.
 Theorem C04_detect_protocol_from_source : forall m, detect_protocol_generated m = Some (detect_protocol m).
 Proof. exact generated_detect_protocol. Qed.
 
+(* the encoding side: request_payload, response_payload and error_payload of the three classes are translated too (dict
+   displays, the conditional members "id" and "params", the refusal of named arguments by 1.0) and build the model's payloads *)
+Theorem C04_builder_code_known :
+  forallb bst_known [v1_request_payload_code; v1_response_payload_code; v1_error_payload_code; v2_request_payload_code;
+                     v2_response_payload_code; v2_error_payload_code; loose_request_payload_code; loose_response_payload_code;
+                     loose_error_payload_code] = true.
+Proof. exact builder_code_known. Qed.
+
+Theorem C04_request_payload_from_source : forall pr meth args rid res c m, is_list args || is_dict args = true ->
+  bsexec {| b_meth := meth; b_args := args; b_rid := rid; b_result := res; b_ecode := c; b_emsg := m |} None (code_of_request_payload pr)
+  = Some (request_payload pr meth args rid).
+Proof. exact generated_request_payload. Qed.
+
+Theorem C04_response_payload_from_source : forall pr meth args rid res c m,
+  bsexec {| b_meth := meth; b_args := args; b_rid := rid; b_result := res; b_ecode := c; b_emsg := m |} None (code_of_response_payload pr)
+  = Some (Some (response_payload pr res rid)).
+Proof. exact generated_response_payload. Qed.
+
+Theorem C04_error_payload_from_source : forall pr meth args rid res c m,
+  bsexec {| b_meth := meth; b_args := args; b_rid := rid; b_result := res; b_ecode := c; b_emsg := m |} None (code_of_error_payload pr)
+  = Some (Some (error_payload pr c m rid)).
+Proof. exact generated_error_payload. Qed.
+
 Print Assumptions C04_facts.
 Print Assumptions C04_roundtrip_request.
 Print Assumptions C04_roundtrip_result.
@@ -227,3 +250,7 @@ Print Assumptions C04_process_response_from_source.
 Print Assumptions C04_process_member_from_source.
 Print Assumptions C04_payload_to_item_from_source.
 Print Assumptions C04_detect_protocol_from_source.
+Print Assumptions C04_builder_code_known.
+Print Assumptions C04_request_payload_from_source.
+Print Assumptions C04_response_payload_from_source.
+Print Assumptions C04_error_payload_from_source.
